@@ -3,9 +3,9 @@ CONSTANTS
   EmitOn = FALSE
   Mode = "mc"
   IPSets <- IP5x2
-  FnW <- FW2x2
-  FnB <- FB2x1
-  AuthModes <- Au2
+  FnW <- FW4x2
+  FnB <- FB4x2
+  AuthModes <- Au3
   MaxCfgs = 1
   MaxReqs = 0
   EthLegacyAware = TRUE
